@@ -163,6 +163,11 @@ func (a *accountsProvider) Refresh(_ context.Context) { simrt.Yield("accounts/re
 type recScheduler struct {
 	inner scheduler.Service
 	r     *Record
+	// stallPct: fault kind "stalled goroutine" - after a ScheduleJob call returns, the calling
+	// goroutine is held for a while (a goroutine that is runnable but does not get the CPU cannot
+	// otherwise exist here: simulated time only advances when every task is blocked)
+	stallPct int
+	slot     time.Duration
 }
 
 func (s *recScheduler) ev(op, class, name string, at time.Time, err error) {
@@ -180,6 +185,10 @@ func (s *recScheduler) ScheduleJob(ctx context.Context, class, name string, at t
 	err := s.inner.ScheduleJob(ctx, class, name, at, wrapped)
 	if err != nil {
 		simrt.Crit(func() { ev.Err = true })
+	}
+	if s.stallPct > 0 && simrt.Draw(100) < s.stallPct {
+		simrt.Probe("fault:goroutine-stalled-after-schedule")
+		_ = simrt.Sleep(ctx, []time.Duration{time.Millisecond, s.slot / 3, s.slot, 2 * s.slot}[simrt.Draw(4)], "syssim/stall")
 	}
 	return err
 }
@@ -417,7 +426,7 @@ func Build(ctx context.Context, rec *Record, nodes []*Node, waitedForGenesis boo
 	if err != nil {
 		return nil, err
 	}
-	sched := &recScheduler{inner: sys.Scheduler, r: rec}
+	sched := &recScheduler{inner: sys.Scheduler, r: rec, stallPct: p.StallAfterSchedulePct, slot: time.Duration(p.SecondsPerSlot) * time.Second}
 	accs := &accountsProvider{m: m, accs: map[int]e2wtypes.Account{}}
 	for _, v := range p.Ours {
 		accs.accs[v] = NewAccount(rec.Signer, AccountKind(p.AccountKind), v, fmt.Sprintf("Wallet/Account %d", v))
